@@ -262,10 +262,52 @@ macro_rules! by_static_n {
     };
 }
 
+/// the public seeding helpers (Drivers.tla, SeedHelpers): from_re(x).helper() has `field` = one, the real part x, every
+/// other part zero -- on f64, f32 and over an inner dual number
+fn seed_helpers(rep: &mut Rep, table: &Value) {
+    use num_traits::{One, Zero};
+    macro_rules! parts { ($v:expr; $($f:ident),*) => {{ let v = $v; vec![$((stringify!($f), v.$f.clone())),*] }}; }
+    macro_rules! one_type { ($name:expr, $T:ident, $S:ty, $F:ty, $tag:expr, $x:expr; $($f:ident),*; $($h:ident),*) => {
+        for row in table.as_array().unwrap().iter().filter(|r| r["ty"] == json!($name)) {
+            let helper = row["helper"].as_str().unwrap();
+            let field = row["field"].as_str().unwrap();
+            let x: $S = $x;
+            let got = match helper { $(stringify!($h) => Some($T::<$S, $F>::from_re(x.clone()).$h()),)* _ => None };
+            let Some(got) = got else {
+                rep.check(&format!("seed_helper:{}", $tag), row, false, "no such helper in the harness".into(), helper.to_string());
+                continue;
+            };
+            let mut ok = got.re == x;
+            for (name, val) in parts!(got.clone(); $($f),*) {
+                ok &= if name == field { val == <$S>::one() } else { val == <$S>::zero() };
+            }
+            rep.check(&format!("seed_helper:{}", $tag), row, ok, format!("{:?}", got), format!("re = {:?}, {} = 1, other parts 0", x, field));
+        }
+    }; }
+    one_type!("Dual", Dual, f64, f64, "f64", 1.75; eps; derivative);
+    one_type!("Dual", Dual, f32, f32, "f32", 1.75; eps; derivative);
+    one_type!("Dual", Dual, Dual64, f64, "Dual64", Dual64::new(1.75, -0.5); eps; derivative);
+    one_type!("Dual2", Dual2, f64, f64, "f64", 1.75; v1, v2; derivative);
+    one_type!("Dual2", Dual2, f32, f32, "f32", 1.75; v1, v2; derivative);
+    one_type!("Dual2", Dual2, Dual64, f64, "Dual64", Dual64::new(1.75, -0.5); v1, v2; derivative);
+    one_type!("Dual3", Dual3, f64, f64, "f64", 1.75; v1, v2, v3; derivative);
+    one_type!("Dual3", Dual3, f32, f32, "f32", 1.75; v1, v2, v3; derivative);
+    one_type!("Dual3", Dual3, Dual64, f64, "Dual64", Dual64::new(1.75, -0.5); v1, v2, v3; derivative);
+    one_type!("HyperDual", HyperDual, f64, f64, "f64", 1.75; eps1, eps2, eps1eps2; derivative1, derivative2);
+    one_type!("HyperDual", HyperDual, f32, f32, "f32", 1.75; eps1, eps2, eps1eps2; derivative1, derivative2);
+    one_type!("HyperDual", HyperDual, Dual64, f64, "Dual64", Dual64::new(1.75, -0.5); eps1, eps2, eps1eps2; derivative1, derivative2);
+    one_type!("HHD", HyperHyperDual, f64, f64, "f64", 1.75; eps1, eps2, eps3, eps1eps2, eps1eps3, eps2eps3, eps1eps2eps3; derivative1, derivative2, derivative3);
+    one_type!("HHD", HyperHyperDual, f32, f32, "f32", 1.75; eps1, eps2, eps3, eps1eps2, eps1eps3, eps2eps3, eps1eps2eps3; derivative1, derivative2, derivative3);
+    one_type!("HHD", HyperHyperDual, Dual64, f64, "Dual64", Dual64::new(1.75, -0.5); eps1, eps2, eps3, eps1eps2, eps1eps3, eps2eps3, eps1eps2eps3; derivative1, derivative2, derivative3);
+}
+
 pub fn run(path: &str) -> Result<Value, String> {
     let text = std::fs::read_to_string(path).map_err(|e| format!("{path}: {e}"))?;
     let mut rep = Rep { calls: 0, per_driver: BTreeMap::new(), mismatches: vec![], n_mismatch: 0, samples: vec![] };
     let mut cases = 0u64;
+    if let Some(table) = text.lines().find_map(|l| crate::replay::parse_tagged(l, "SEEDS")) {
+        seed_helpers(&mut rep, &table);
+    }
     for line in text.lines() {
         let Some(case) = crate::replay::parse_tagged(line, "DRIVER") else { continue };
         cases += 1;
